@@ -55,6 +55,10 @@ def norm_ty(g):
     t = C.tyn(t).replace(", S::alloc::Global", "")
     t = t.replace("S::vec::Vec<u8>", "bytes").replace("[u8]", "bytes")
     t = re.sub(r"S::vec::Vec<(.*)>", r"seq<\1>", t)
+    # a type parameter of an (inlined) generic helper: `T/#0` in the writer's helper and `T/#1` in the reader's are the same unknown
+    t = re.sub(r"\b([A-Z]\w*)/#\d+", r"\1", t)
+    # a slice is written exactly like a Vec of the same element type (length prefix + elements)
+    t = re.sub(r"^\[(.*)\]$", r"seq<\1>", t)
     return t
 
 
@@ -255,11 +259,13 @@ def rest(chk, w):
     fx = rows.get("Fixed")
     has_fixed = any(v["name"] == "Fixed" for v in w.adt("vaporetto::predictor::WeightVector")["variants"])
     if has_fixed or chk.config == "W":
-      chk.ob("R14.4", "fixed:trimmed-vec", fx is not None and fx[0] == "seq<i32>" and "to_vec" in fx[1] and "trim_end_zeros" in fx[1], "a Fixed weight vector is encoded as %s; expected trim_end_zeros(w).to_vec()" % (fx,), site=C.site(be), sample={"rows": {k: list(v) for k, v in rows.items()}})
+      chk.ob("R14.4", "fixed:trimmed-vec", fx is not None and fx[0] == "seq<i32>" and "trim_end_zeros" in fx[1], "a Fixed weight vector is encoded as %s; expected trim_end_zeros(w) (as a Vec or a slice)" % (fx,), site=C.site(be), sample={"rows": {k: list(v) for k, v in rows.items()}})
       trim_table(chk, w)
       from_table(chk, w)
     vr = rows.get("Variable")
-    chk.ob("R14.4", "variable:vec", vr is not None and vr[0] == "seq<i32>", "a Variable weight vector is encoded as %s" % (vr,), site=C.site(be))
+    # a Variable vector is written as it is: its length is part of its behaviour (score buffer sizes), and nothing pads it on reading
+    chk.ob("R14.4", "variable:vec", vr is not None and vr[0] == "seq<i32>" and "arg1@Variable.0" in vr[1] and "trim_end_zeros" not in vr[1] and "(" not in vr[1].replace("(&", ""),
+           "a Variable weight vector is encoded as %s; expected the vector itself (untrimmed, unconverted)" % (vr,), site=C.site(be))
     dec, _ = C.impl_fn(w, "vaporetto::predictor::WeightVector", "bincode::de::Decode", "decode", hand_written=True)
     bd, itd, od = C.run_fn(w, dec)
     okfrom = False
